@@ -8,9 +8,18 @@ operands' qtotals).  Configurations: pure Python at TENPY_OPTIMIZE=0 (all self-c
 extension at the default level (the extension is only used there).  Leg-level programs exercise LegCharge / LegPipe methods.
 The operations covered by coq/Model/TensorOps.v are executed by the Coq model: the boolean WF predicate of the model is
 evaluated on the storage the implementation produced, and the model's qtotal is compared.
+Streams of harness/c02_linalg.py (kind 'c02x' of the shared runner): the public functions / classes of tenpy.linalg that return tensors or
+legs but are no methods reached by the program generator - LegCharge lookups (get_charge / get_qindex_of_charges / get_qindex / get_slice ...
+round trips on legs of both directions), sparse.FlatLinearOperator / FlatHermitianOperator (every charge sector of legs with both qconj, compact
+and non-compact flat mode, from_NpcArray / constructor / charge_sector setter / from_guess_with_pipe, flat <-> npc round trips, the tensors
+handed to the user's matvec, eigenvectors), constructors, factorizations, gram_schmidt, the NpcLinearOperator wrappers - with the same
+invariant oracle on every returned object.  The public API of tenpy.linalg is enumerated by reflection and the coverage is recorded in the evidence.
 """
+import os
+
 import common
 import c01_common as cc
+import c02_linalg
 import npc_gen
 from c01 import replay, coq_stream
 
@@ -52,6 +61,55 @@ def coq_stream2(ctx, results, programs, max_cases, config, opt0):
     return len(cases), per_op
 
 
+XSTREAM = {'flatop': 'flat-operator', 'flatpipe': 'flat-operator-pipe', 'leglookup': 'leg-lookups', 'linalg': 'linalg-functions'}
+
+
+def linalg_streams(ctx, rng, seen, all_hist):
+    """streams of harness/c02_linalg.py + coverage table of the public API of tenpy.linalg (by reflection, in the implementation's interpreter)"""
+    nx = {'leglookup': ctx.pick(500, 4000), 'flatop': ctx.pick(350, 2800), 'flatpipe': ctx.pick(150, 1200), 'linalg': ctx.pick(250, 2000)}
+    if not ctx.proof.ok:
+        nx = {k: 3 * v for k, v in nx.items()}
+    cases = [c['xcase'] for c in common.corpus_cases(PROP) if 'xcase' in c]
+    cases += [c02_linalg.gen_case(rng, k) for k, n in nx.items() for _ in range(n)]
+    api_calls = {}
+    for config, opt0, sel in (('py', True, cases), ('cy', False, cases[::3])):
+        results, infos, crashes = cc.run_programs('c02x', sel, config, opt0)
+        for kind2, stream in XSTREAM.items():
+            idx = [i for i, c in enumerate(sel) if c['kind2'] == kind2]
+            hist, notes = cc.collect(ctx, PROP, '%s-%s' % (stream, config), [sel[i] for i in idx], [results[i] for i in idx],
+                                     [], config, opt0, kind='c02x', seen_keys=seen)
+            all_hist['%s-%s' % (stream, config)] = {k: v for k, v in sorted(hist.items()) if not k.startswith('api:')}
+            for k, v in hist.items():
+                if k.startswith('api:'):
+                    api_calls[k[4:]] = api_calls.get(k[4:], 0) + v
+            if notes:
+                ctx.notes.append('%s-%s: observations outside C02 (not counted): %s' % (stream, config, dict(sorted(notes.items())[:12])))
+        for c in crashes:
+            ctx.fail('correspondence', 'the interpreter running the c02x streams died (exit %s): %s' % (c['rc'], c['out'][-300:]),
+                     {'stream': 'c02x', 'config': config, 'optimize0': opt0, 'program': sel[c['index']]})
+    res, infos, crashes = cc.run_programs('c02x', [{'kind2': 'reflect', 'seed': 0, 'mods': [], 'names': []}], 'py', True, nchunks=1)
+    api = res[0].get('api_list') if res else None
+    if not api:
+        ctx.fail('correspondence', 'reflection of the public API of tenpy.linalg failed: %s' % (res[0].get('fails') if res else crashes), None)
+        return api_calls
+    prog_ops = {}
+    for stream in ('py', 'cy', 'legs'):
+        for k, v in all_hist.get(stream, {}).items():
+            if k.startswith('op:'):
+                full = k[3:]
+                for key in {full, full.split('.')[-1]} if stream != 'legs' else {full}:
+                    prog_ops[key] = prog_ops.get(key, 0) + v
+    table = c02_linalg.coverage_table(api, api_calls, open(os.path.join(common.VERIF, 'harness', 'npc_gen.py')).read(), prog_ops)
+    unc = sorted(k for k, v in table.items() if v == 'UNCOVERED')
+    ctx.cov['public_api_coverage'] = {'modules': ['tenpy.linalg.' + m for m in c02_linalg.API_MODULES], 'names': len(table),
+                                      'by_c02x_streams': sum(1 for v in table.values() if v.startswith('c02x')),
+                                      'by_programs': sum(1 for v in table.values() if v.startswith('tensor')),
+                                      'not_in_C02': sum(1 for v in table.values() if v.startswith('not in C02')), 'uncovered': unc, 'table': table}
+    if unc:
+        ctx.notes.append('public names of tenpy.linalg not reached by C02 and not classified: %s' % unc)
+    return api_calls
+
+
 def main(ctx):
     if ctx.replay_in:
         ctx.proof = None
@@ -84,6 +142,7 @@ def main(ctx):
     results, infos, crashes = cc.run_programs('legs', legprogs, 'py', True)
     hist, notes = cc.collect(ctx, PROP, 'legs', legprogs, results, crashes, 'py', True, kind='legs', seen_keys=seen)
     all_hist['legs'] = hist
+    xstats = linalg_streams(ctx, rng, seen, all_hist)
     ctx.cov['traces_validated_against_impl'] = sum(v['cases'] for v in coq_done.values())
     ctx.cov['model_vs_impl'] = coq_done
     ctx.cov['input_distribution'] = all_hist
@@ -93,6 +152,11 @@ def main(ctx):
         'C02 not generated: legs without any block and selections that keep nothing (see C01)',
         'C02 Coq model: WF (charge rule, no duplicate rows, truthful sortedness claim) proved closed under transpose, conj, scalar multiplication, addition, outer and the '
         'block pairing of tensordot; for all other operations the invariant is checked by the oracle only',
+        'C02 c02x streams: a call on valid arguments that raises counts as a failure, except FlatLinearOperator in the situations of the registered defects F16.3 '
+        '(qconj=-1 leg, non-compact, sector != -sector) and F16.4 (from_NpcArray(labelled matrix, charge_sector=None).matvec) of property C16',
+        'C02 c02x streams not generated: charge_sector=None on legs that are not sorted and bunched (flat_to_npc raises in its own sanity check), compact mode for a sector '
+        'without states, svd(full_matrices=True) / speigs / orthogonal_columns (property C05, F05.1/F05.2/F05.6), add_charge(qtotal=None), from_qdict without charges or '
+        'with empty blocks, BoostNpcLinearOperator.to_matrix, legs with empty blocks in the operator streams (tensordot over empty blocks: C01)',
     ]
     return ctx.finish(RULE, 'theorems of coq/Props/C02.v (WF closed under the modelled operations, documented qtotal); boolean WF of the model evaluated on the storage produced by '
                       'the implementation; invariant oracle after every step on every live object in two configurations')
@@ -100,4 +164,6 @@ def main(ctx):
 
 RULE = ('histories: the programs of C01 with 2-10 (quick) / 2-25 (thorough) steps incl. in-place methods, shallow copies and element assignment; after every step every live '
         'object is checked.  One case = one history; evaluations counts steps; non-trivial when some step produced a tensor with a non-zero entry; '
-        'distinct = distinct (seed, operation sequence).  legs: 1-5 LegCharge/LegPipe method calls on random legs.')
+        'distinct = distinct (seed, operation sequence).  legs: 1-5 LegCharge/LegPipe method calls on random legs.  '
+        'c02x streams (leg-lookups, flat-operator, flat-operator-pipe, linalg-functions): one case = one random leg / operator / matrix with all its '
+        'sectors and modes; evaluations counts the API calls groups; non-trivial when the leg / sector is not empty.')
